@@ -184,6 +184,11 @@ pub trait Engine: Sync {
     fn wrap_tracked(&self, _idx: u64, body: serde_json::Value) -> serde_json::Value {
         body
     }
+    /// An operation that never returns delivers none of what any statement promises; only a
+    /// check whose statement is about memory safety alone (C10) does not count it.
+    fn hang_is_violation(&self) -> bool {
+        true
+    }
 }
 
 // ------------------------------------------------------------------------------------------
@@ -218,7 +223,38 @@ pub fn recheck_pick(seed: u64, idx: u64, every: u64) -> bool {
     crate::rng::mix(seed ^ 0xdec0de, idx) % every.max(1) == 0
 }
 
+/// Progress counter of this process (bumped at every run / replayed case) and a watchdog thread:
+/// a run that makes no progress for VERIF_HANG_SECS (default 300) wall-clock seconds is an
+/// operation of the crate that does not return. The watchdog says so on stderr and ends the
+/// process with exit code 97, which the orchestrator classifies as `hang_no_progress`.
+/// (Wall-clock time is used for this one purpose only; nothing the simulation decides reads it.)
+static PROGRESS: std::sync::atomic::AtomicU64 = std::sync::atomic::AtomicU64::new(0);
+
+pub fn hang_secs() -> u64 {
+    std::env::var("VERIF_HANG_SECS").ok().and_then(|s| s.parse().ok()).unwrap_or(300).max(5)
+}
+
+pub fn start_watchdog() {
+    let limit = hang_secs();
+    std::thread::spawn(move || {
+        let mut last = PROGRESS.load(Ordering::Relaxed);
+        let mut since = Instant::now();
+        loop {
+            std::thread::sleep(std::time::Duration::from_millis(500));
+            let now = PROGRESS.load(Ordering::Relaxed);
+            if now != last {
+                last = now;
+                since = Instant::now();
+            } else if since.elapsed().as_secs() >= limit {
+                eprintln!("HANG: no progress for {} s in one run: an operation of the crate does not return", limit);
+                std::process::exit(97);
+            }
+        }
+    });
+}
+
 pub fn worker_main(engine: &dyn Engine, args: &[String]) -> i32 {
+    start_watchdog();
     // worker <prop> <tier> <seed> <start> <count> [--track FILE LEVEL] [--digests FILE] [--recheck-every N] [--only a,b,c]
     let tier = Tier::parse(&args[1]);
     crate::types::THOROUGH.store(tier == Tier::Thorough, Ordering::Relaxed);
@@ -259,6 +295,7 @@ pub fn worker_main(engine: &dyn Engine, args: &[String]) -> i32 {
     };
     for idx in indices {
         track_line(1, &format!("R {}", idx));
+        PROGRESS.fetch_add(1, Ordering::Relaxed);
         acc.counters.insert("last_digest".into(), 0);
         engine.run_one(seed, idx, tier, &mut acc);
         // a violation that is a recorded known finding does not stop the exploration
@@ -362,6 +399,9 @@ pub fn classify_abort(status: &std::process::ExitStatus, stderr: &str) -> AbortI
     let last: Vec<&str> = stderr.lines().rev().take(12).collect();
     let tail = last.iter().rev().cloned().collect::<Vec<_>>().join(" | ");
     let has = |s: &str| stderr.contains(s);
+    if status.code() == Some(97) && has("HANG: no progress") {
+        return AbortInfo { class: "hang_no_progress".into(), detail: last.iter().rev().filter(|l| l.contains("HANG")).cloned().collect::<Vec<_>>().join(" | "), benign: false, memory_safety: false };
+    }
     if has("unsafe precondition(s) violated") {
         return AbortInfo { class: "abort_unsafe_precondition".into(), detail: tail, benign: false, memory_safety: true };
     }
@@ -453,6 +493,7 @@ pub fn replay_in_child(case: &Case, dir: &Path) -> Result<Option<FailRec>, Strin
 }
 
 pub fn replay_inner_main(engine: &dyn Engine, case: &Case) -> i32 {
+    start_watchdog();
     match engine.replay(&case.body) {
         Ok(Some(f)) => {
             println!("FAIL {}", serde_json::to_string(&f).unwrap());
@@ -484,6 +525,10 @@ pub fn shrink_case(engine: &dyn Engine, case: &Case, dir: &Path, budget_s: f64) 
     let abort_class = fail.class.starts_with("abort_");
     let mut best = case.clone();
     best.original_steps = engine.size_of(&case.body);
+    if fail.class == "hang_no_progress" {
+        // every candidate would cost the whole watchdog delay: reported as found
+        return best;
+    }
     let mut tries = 0u64;
     'outer: loop {
         let cands = engine.shrink_candidates(&best.body, &fail);
@@ -585,11 +630,24 @@ pub fn check_main(engine: &dyn Engine, tier: Tier) -> i32 {
     pending.reverse();
     let mut relaunches = 0;
     while !pending.is_empty() {
+        if abort_cases.len() >= 3 {
+            // three abnormal deaths located and classified: that is the report; the rest of the
+            // exploration would mostly die the same way
+            let skipped: u64 = pending.iter().map(|b| b.1).sum();
+            total.bump("counters", "runs_skipped_after_repeated_aborts", skipped);
+            break;
+        }
         let take = pending.len().min(workers as usize);
         let wave: Vec<(u64, u64)> = pending.split_off(pending.len() - take);
         let children: Vec<Child> = wave.iter().map(|(s, c)| spawn_worker(prop, tier, seed, *s, *c, &dir, "A", &["--recheck-every".into(), recheck_every.to_string()])).collect();
-        for c in children {
+        for mut c in children {
             let (start, count) = (c.start, c.count);
+            if abort_cases.len() >= 3 {
+                let _ = c.child.kill();
+                let _ = c.child.wait();
+                total.bump("counters", "runs_skipped_after_repeated_aborts", count);
+                continue;
+            }
             let out = match c.child.wait_with_output() {
                 Ok(o) => o,
                 Err(e) => {
@@ -619,7 +677,8 @@ pub fn check_main(engine: &dyn Engine, tier: Tier) -> i32 {
                         total.benign_aborts += 1;
                     } else {
                         let body = body.unwrap_or(serde_json::Value::Null);
-                        if engine.abort_is_violation(&body, &info.class) {
+                        let counts = if info.class == "hang_no_progress" { engine.hang_is_violation() } else { engine.abort_is_violation(&body, &info.class) };
+                        if counts {
                             let step = engine.size_of(&body).saturating_sub(1);
                             abort_cases.push(Case { property: prop.to_string(), seed, run, body, fail: Some(FailRec { props: prop.to_string(), class: info.class.clone(), msg: info.detail.clone(), step }), minimised: false, original_steps: 0 });
                         } else if info.class.starts_with("abort_unknown") || info.class == "abort_nounwind_panic" {
